@@ -187,6 +187,19 @@ CHECKS = [
                 'and substring must resolve to exactly the model set.',
         'note': 'assembler bookkeeping names (:start:, :wflips:, wflip-area markers) are ignored',
     },
+    {
+        'property_id': 'C08', 'level': 'exploration', 'design_ref': 'DESIGN.md 4 C08, 3.7',
+        'technique': 'runtime monitoring: SYNC-point monitor with a word-level model of buffer cells, pointer variables, sp, stack and predicted control-flow ids, read through the DeviceMemory hook',
+        'text': 'The real pointer/stack/call library runs on the real interpreter; three sub-buffers (next to the code, a middle '
+                'segment, a segment near the top of the address space) make cell addresses differ in nearly every hex digit. At '
+                'every SYNC the monitor compares the flip and jump word of EVERY buffer cell, stack cell, variable, pointer '
+                'variable and sp with a model transcribed from the `like: *ptr = src` doc formulas, and the 10-bit id each SYNC '
+                'spells with the predicted next sync point (call/return, fcall/fret, ptr_jump). Pair programs walk all ordered '
+                'pairs of target cells through two pointers, sequence programs mix 10-40 applications with balanced push/pop, '
+                'call nests go to depth 6; hex at w=32/64, bit pointers at w=16/32/64; slices re-run on the pure-Python loop.',
+        'note': 'documented-as-assumed-away usage (empty-stack pops, unaligned pointers, overlapping operands) is never generated; '
+                'library scratch registers and the return-register content after fcall/fret are not compared',
+    },
 ]
 
 _TODO = 'check not built yet in this session (work in progress; see DESIGN.md for the planned monitor)'
